@@ -993,12 +993,22 @@ func rulesC10(w *World, r *Report) {
 				fileVal := func(s string) bool {
 					return strings.HasPrefix(s, "p0[") && strings.HasSuffix(s, jIdx) && strings.Contains(s, "][p1].values")
 				}
-				okSt := false
-				if c, isCall := st.Val.(*ssa.Call); isCall && c.Common().StaticCallee() == add {
-					x, y := ex.expr(c.Common().Args[0]), ex.expr(c.Common().Args[1])
-					okSt = (x == dst && fileVal(y)) || (y == dst && fileVal(x))
-				} else {
-					okSt = fileVal(val)
+				// one store of a value chosen before it (v := file value; if i > 0 { v = acc.Add(v) }; acc[j] = v) counts
+				// as one store per choice
+				vals := []ssa.Value{st.Val}
+				if ph, isPhi := st.Val.(*ssa.Phi); isPhi {
+					vals = ph.Edges
+				}
+				okSt := true
+				for _, v := range vals {
+					if c, isCall := v.(*ssa.Call); isCall && c.Common().StaticCallee() == add {
+						x, y := ex.expr(c.Common().Args[0]), ex.expr(c.Common().Args[1])
+						if !((x == dst && fileVal(y)) || (y == dst && fileVal(x))) {
+							okSt = false
+						}
+					} else if !fileVal(ex.expr(v)) {
+						okSt = false
+					}
 				}
 				r.Check(okSt, "C10.R4", "sumTimeSeriesListForArchive:store", w.instrPos(st), "accumulates with Value.Add or initialises from a file's value at the same slot", "the accumulator is updated with "+val+": not file i's value at slot j nor Value.Add(sumValues[j], that value) — NaN holes are no longer skipped symmetrically")
 			})
@@ -1017,11 +1027,16 @@ func rulesC10(w *World, r *Report) {
 					}
 				})
 				// signs of (file index - 0) under which the store runs, from the nearest test of the file index above it
-				fileSigns := func(st *ssa.Store) (map[int]bool, bool) {
+				fileSigns := func(b *ssa.BasicBlock, via *ssa.BasicBlock) (map[int]bool, bool) {
 					signs := map[int]bool{0: true, 1: true}
-					b := st.Block()
-					for i := 0; i < 6 && len(b.Preds) == 1; i++ {
-						p := b.Preds[0]
+					for i := 0; i < 6 && (via != nil || len(b.Preds) == 1); i++ {
+						var p *ssa.BasicBlock
+						if via != nil {
+							// the edge via -> b is given (a phi edge)
+							p, via = via, nil
+						} else {
+							p = b.Preds[0]
+						}
 						if iff, ok := p.Instrs[len(p.Instrs)-1].(*ssa.If); ok {
 							cond, neg := stripNot(iff.Cond)
 							if bo, ok := cond.(*ssa.BinOp); ok && isCmp(bo.Op) {
@@ -1075,22 +1090,35 @@ func rulesC10(w *World, r *Report) {
 					if !ok || ia.X != ssa.Value(acc) {
 						return
 					}
-					signs, tested := fileSigns(st)
-					if c, isCall := st.Val.(*ssa.Call); isCall && c.Common().StaticCallee() == add {
-						switch {
-						case tested && !signs[0]:
-							addOK = true
-						case !tested && peeled0:
-							addOK = true
-						default:
-							bad = "file 0 is added onto the zero-valued accumulator (an all-NaN slot sums to 0), or later files are not added"
+					type choice struct {
+						v        ssa.Value
+						blk, via *ssa.BasicBlock
+					}
+					choices := []choice{{st.Val, st.Block(), nil}}
+					if ph, isPhi := st.Val.(*ssa.Phi); isPhi {
+						choices = nil
+						for i, e := range ph.Edges {
+							choices = append(choices, choice{e, ph.Block(), ph.Block().Preds[i]})
 						}
-					} else {
-						switch {
-						case tested && !signs[1]:
-							initOK = true
-						default:
-							bad = "the accumulator is overwritten by files other than the first"
+					}
+					for _, ch := range choices {
+						signs, tested := fileSigns(ch.blk, ch.via)
+						if c, isCall := ch.v.(*ssa.Call); isCall && c.Common().StaticCallee() == add {
+							switch {
+							case tested && !signs[0]:
+								addOK = true
+							case !tested && peeled0:
+								addOK = true
+							default:
+								bad = "file 0 is added onto the zero-valued accumulator (an all-NaN slot sums to 0), or later files are not added"
+							}
+						} else {
+							switch {
+							case tested && !signs[1]:
+								initOK = true
+							default:
+								bad = "the accumulator is overwritten by files other than the first"
+							}
 						}
 					}
 				})
@@ -1411,6 +1439,18 @@ func ruleWriterWritesAll(w *World, r *Report, rule string) {
 			}
 		}
 		r.Check(bad == "", rule, "archiveUpdateMany:writes-aligned-point", w.instrPos(c), "the point written is an element of alignPoints(batch)", "archiveUpdateMany writes "+shortExpr(bad)+" in place of an aligned point of the batch: the value stored depends on something other than the point given")
+	}
+	// the coarser levels are recomputed for exactly the points that were written: propagateChain gets the aligned batch
+	// itself, not a selection of it
+	if pc := fn(w.Lib, "Whisper.propagateChain"); pc != nil {
+		for _, c := range callsTo(au, pc) {
+			if len(c.Common().Args) < 3 {
+				continue
+			}
+			got := newExprCtx(w).expr(c.Common().Args[2])
+			okP := regexp.MustCompile(`^whispertool\.ArchiveInfo\.alignPoints\([^()]*\)$`).MatchString(got)
+			r.Check(okP, rule, "archiveUpdateMany:propagates-what-it-wrote", w.instrPos(c), "propagateChain receives alignPoints(batch), the points just written", "archiveUpdateMany hands "+shortExpr(got)+" to propagateChain instead of the aligned points it has just written: a point that was stored but is left out here never reaches the coarser archives")
+		}
 	}
 	{
 		bad := ""
